@@ -217,7 +217,7 @@ def main(pid, tier, seed):
     traces, meta = [], {}
     tid = 0
     n_train = 0
-    for enc in ENCODINGS * (1 if tier == 'quick' else 6):
+    for enc in ENCODINGS * (1 if tier == 'quick' else 12):
         chars = chars_for(meas, members, rng, enc)
         groups = [chars] if tier == 'quick' else [chars[i::3] for i in range(3)] + [chars]
         # $HEX[] lines can carry characters that a plain line cannot: every rejected class must stay rejected there
